@@ -275,3 +275,50 @@ Proof.
     assert (E : concat (B ++ [[]]) = concat B) by (rewrite concat_app; cbn; rewrite app_nil_r; reflexivity).
     rewrite E. split; assumption.
 Qed.
+
+(* ---- (3) the shape invariant of the concrete model and the refinement ------------------------------------------ *)
+(* durable part: (state height, store height, number of block records) is (n, n, n), (n, n, n+1) [a block saved
+   above the store height] or (n+1, n, n+1) [died between the state write and the height write]; before the first
+   commit only the genesis block exists *)
+Definition dshape (s : st) : Prop :=
+  ((sh s = th s /\ (length (blocks s) = th s \/ length (blocks s) = S (th s))) \/
+   (sh s = S (th s) /\ length (blocks s) = S (th s))) /\
+  (sh s = 0 -> forall x, In x (block_txs s) -> x = []).
+(* a running node has raised the store height to the state height and, before the first commit, saved the genesis block *)
+Definition ushape (s : st) : Prop := up s = true -> sh s = th s /\ (th s = 0 -> length (blocks s) = 1).
+Definition shape (s : st) : Prop := dshape s /\ ushape s.
+
+Lemma apply_acts_app s a b : apply_acts s (a ++ b) = apply_acts (apply_acts s a) b.
+Proof. unfold apply_acts. apply fold_left_app. Qed.
+
+Lemma apply_acts_cons s a l : apply_acts s (a :: l) = apply_acts (apply_act s a) l.
+Proof. reflexivity. Qed.
+
+(* the part of a state the abstraction does not see can change freely *)
+Definition same_abs (s1 s2 : st) : Prop :=
+  block_txs s2 = block_txs s1 /\ queue s2 = queue s1 /\ seen s2 = seen s1 /\ taken s2 = taken s1 /\ released s2 = released s1.
+
+(* the commit tail on a state whose last block record is the block of the next height *)
+Lemma tail_effect s1 l pb t k e :
+  blocks s1 = l ++ [pb] -> length l = th s1 -> sh s1 = th s1 ->
+  let L := commit_tail (S (th s1)) (b_txs pb) t in
+  let s2 := apply_acts s1 (cut k e L) in
+  same_abs s1 s2 /\ up s2 = up s1 /\
+  (mem s2 = mem s1 \/ mem s2 = filter (fun x => negb (memb x (b_txs pb))) (mem s1)) /\
+  length (blocks s2) = S (th s1) /\
+  ((sh s2 = th s1 /\ th s2 = th s1) \/ (sh s2 = S (th s1) /\ th s2 = th s1) \/ (sh s2 = S (th s1) /\ th s2 = S (th s1))) /\
+  (cut k e L = L -> sh s2 = S (th s1) /\ th s2 = S (th s1)).
+Proof.
+  intros Hb Hl Hs L s2. subst L s2. unfold commit_tail, same_abs, block_txs.
+  assert (Hlen : length (blocks s1) = S (th s1)) by (rewrite Hb, app_length; cbn; lia).
+  assert (Hset : forall sg, set_nth (th s1) {| b_txs := b_txs pb; b_time := t; b_signed := sg |} (blocks s1) = l ++ [{| b_txs := b_txs pb; b_time := t; b_signed := sg |}]).
+  { intros sg. rewrite Hb, <- Hl. apply set_nth_last. }
+  assert (Hmap : forall sg, map b_txs (l ++ [{| b_txs := b_txs pb; b_time := t; b_signed := sg |}]) = map b_txs (blocks s1)).
+  { intros sg. rewrite Hb, !map_app. reflexivity. }
+  assert (Hlen2 : forall sg, length (l ++ [{| b_txs := b_txs pb; b_time := t; b_signed := sg |}]) = S (th s1)).
+  { intros sg. rewrite app_length; cbn; lia. }
+  destruct k as [|[|[|k]]]; destruct e; cbn [cut apply_acts fold_left apply_act apply_wr pred
+      set_mem set_blocks set_sh set_th up mem seen queue blocks sh th taken released];
+    rewrite ?Hset, ?Hmap, ?Hlen2;
+    repeat split; auto; try lia; try discriminate; try (intros E; discriminate E).
+Qed.
